@@ -356,6 +356,12 @@ type writeSet struct {
 
 // dryRun executes the loop body once on a scratch state and reports what it may write.
 func (fx *Fx) dryRun(st *State, li *LoopInfo, serial0, local0 int) *writeSet {
+	return fx.dryRunOpt(st, li, serial0, local0, nil, false)
+}
+
+// dryRunOpt: keep, when non-nil, receives the back-edge arrival states of THIS loop (dry runs of nested loops have
+// their own); keepAssume leaves the assumptions made during the run in place (the caller truncates them).
+func (fx *Fx) dryRunOpt(st *State, li *LoopInfo, serial0, local0 int, keep *[]*State, keepAssume bool) *writeSet {
 	ws := &writeSet{ghost: map[string]bool{}}
 	for k := range ws.locals {
 		ws.locals[k] = map[int]bool{}
@@ -368,6 +374,7 @@ func (fx *Fx) dryRun(st *State, li *LoopInfo, serial0, local0 int) *writeSet {
 		savedCnt[k] = v
 	}
 	savedDry := fx.dry
+	savedArrivals := fx.dryArrivals // back-edge arrivals of an enclosing loop's dry run collected so far
 	fx.dry = li
 	fx.dryArrivals = nil
 	func() {
@@ -378,12 +385,12 @@ func (fx *Fx) dryRun(st *State, li *LoopInfo, serial0, local0 int) *writeSet {
 		fx.runFromHeader(st, li)
 	}()
 	arr := fx.dryArrivals
-	fx.dryArrivals = nil
-	if fx.keepDry != nil {
-		*fx.keepDry = arr
+	fx.dryArrivals = savedArrivals
+	if keep != nil {
+		*keep = arr
 	}
 	fx.Obls = fx.Obls[:nO]
-	if !fx.keepAssume {
+	if !keepAssume {
 		fx.Assume = fx.Assume[:nA]
 	}
 	fx.Returns = fx.Returns[:nR]
@@ -726,13 +733,7 @@ func (fx *Fx) applyWriteSet(st *State, writes *writeSet) {
 // dryRunKeep is dryRun that also returns the back-edge arrival states and leaves the assumptions of the dry run in
 // place (the caller truncates them after checking candidates).
 func (fx *Fx) dryRunKeep(st *State, li *LoopInfo, serial0, local0 int) (*writeSet, []*State) {
-	nA := len(fx.Assume)
 	var arr []*State
-	fx.keepDry = &arr
-	fx.keepAssume = true
-	ws := fx.dryRun(st, li, serial0, local0)
-	fx.keepDry = nil
-	fx.keepAssume = false
-	_ = nA
+	ws := fx.dryRunOpt(st, li, serial0, local0, &arr, true)
 	return ws, arr
 }
